@@ -36,7 +36,22 @@ func globalRoot(v ssa.Value, paramRoots map[*ssa.Parameter]*ssa.Global, seen map
 		if x.Op == token.MUL {
 			// a pointer / slice / map header loaded from a global refers to shared storage
 			if isRefLike(x.Type()) {
-				return globalRoot(x.X, paramRoots, seen)
+				if g := globalRoot(x.X, paramRoots, seen); g != nil {
+					return g
+				}
+				// a pointer read back from a local or a struct field into which the address of package-level
+				// storage was stored in this function (ipd.Tenc = &pkgVar; ipd.Tenc.F = …)
+				if fn := x.Parent(); fn != nil {
+					for _, b := range fn.Blocks {
+						for _, ins := range b.Instrs {
+							if st, ok := ins.(*ssa.Store); ok && sameAddr(st.Addr, x.X) {
+								if g := globalRoot(st.Val, paramRoots, seen); g != nil {
+									return g
+								}
+							}
+						}
+					}
+				}
 			}
 		}
 		return nil
